@@ -76,6 +76,25 @@ def run(tier):
                    detail="deg N = %d <= deg D = %d" % (r["degN"], r["degD"]))
         table[n] = dict(degN=r["degN"], degD=r["degD"], L_stable=r["degN"] < r["degD"])
     R.extra_cov["stability_functions"] = table
+    # ---- E1 link between the tables and the code that runs: the stage system handed to the nonlinear solver is the defining
+    #      one for every implicit class, the increment is h*sum b_i K_i, and an unconverged solve is never returned (as C02)
+    try:
+        from pyvc import source
+        from pyvc.executor import Executor, Unsupported
+        from . import C02
+        src = source.load_all()
+        for q in ("RungeKuttaIntegrator.algebraic_system", "RungeKuttaIntegrator.step", "RungeKuttaIntegrator.__call__"):
+            R.under_contract(src.func(C02.FT, q))
+        for n in names:
+            C02.check_algebraic_system(C02.make_executor(src, reg), reg, src, n, d["methods"][n])
+            C02.check_rk_step(C02.make_executor(src, reg), reg, src, n, d["methods"][n])
+        C02.check_call_skeleton(C02.make_executor(src, reg), reg, src, True, False)
+        C02.check_call_skeleton(C02.make_executor(src, reg), reg, src, True, True)
+        for o in reg.obligations:
+            if o.name.startswith("C02/"):
+                o.name = o.name.replace("C02/", PID + "/", 1)
+    except Unsupported as e:
+        reg.undecided(PID + "/e1-link", "unsupported", "executor", str(e))
     # ---- bounded native clause: the computed step agrees with R(z)
     try:
         nat = common.run_native("monitor/native_c11.py", dict(tier=tier, seed=R.seed, methods={r["name"]: dict(N=r["N"], D=r["D"]) for r in results}), timeout=900)
